@@ -157,7 +157,20 @@ from tawazi._helpers import StrictDict  # noqa: E402
 
 class TaggedResults(StrictDict):
     """the results dict of ONE execution, carrying its controller: a worker that starts late (after its
-    execution ended) is attributed to its own execution, never to the next one."""
+    execution ended) is attributed to its own execution, never to the next one.  The tag survives
+    copy.copy (async_execute copies the dict) but is dropped by pickle / deepcopy."""
+
+    def __copy__(self):
+        t = TaggedResults(self)
+        t._verif_ctl = getattr(self, "_verif_ctl", None)
+        return t
+
+    def __deepcopy__(self, memo):
+        import copy as _c
+        return StrictDict((_c.deepcopy(k, memo), _c.deepcopy(v, memo)) for k, v in self.items())
+
+    def __reduce__(self):
+        return (StrictDict, (dict(self),))
 
 
 def mknode(name, ret, **kw):
